@@ -16,6 +16,7 @@
 #include <gvt/fossil.h>
 #include <log/stats.h>
 #include <mm/msg_allocator.h>
+#include <verif/rsv.h>
 
 static void worker_thread_init(rid_t this_rid)
 {
@@ -41,6 +42,7 @@ static void worker_thread_init(rid_t this_rid)
 static void worker_thread_fini(void)
 {
 	gvt_msg_drain();
+	RSV_EV(RSV_EV_STAGE, NULL, 6, 0, 0.0);
 
 	if(sync_thread_barrier()) {
 		stats_dump();
@@ -50,10 +52,12 @@ static void worker_thread_fini(void)
 		mpi_node_barrier();
 	}
 
+	RSV_EV(RSV_EV_STAGE, NULL, 7, 0, 0.0);
 	lp_fini();
 	msg_queue_fini();
 	sync_thread_barrier();
 	msg_allocator_fini();
+	RSV_EV(RSV_EV_STAGE, NULL, 8, 0, 0.0);
 }
 
 static thrd_ret_t THREAD_CALL_CONV parallel_thread_run(void *rid_arg)
@@ -61,6 +65,7 @@ static thrd_ret_t THREAD_CALL_CONV parallel_thread_run(void *rid_arg)
 	worker_thread_init((uintptr_t)rid_arg);
 
 	while(likely(termination_cant_end())) {
+		RSV_YIELD(RSV_SITE_MAIN_LOOP);
 		mpi_remote_msg_handle();
 
 		unsigned i = 64;
@@ -69,6 +74,7 @@ static thrd_ret_t THREAD_CALL_CONV parallel_thread_run(void *rid_arg)
 
 		simtime_t current_gvt = gvt_phase_run();
 		if(unlikely(current_gvt != 0.0)) {
+			RSV_EV(RSV_EV_GVT, NULL, 0, 0, current_gvt);
 			termination_on_gvt(current_gvt);
 			auto_ckpt_on_gvt();
 			fossil_on_gvt(current_gvt);
